@@ -3,6 +3,7 @@ import AdaVerif.Lemmas.Guard
 import AdaVerif.Lemmas.AggSetters
 import AdaVerif.Lemmas.UrlSetters
 import AdaVerif.Lemmas.AggSetPathname
+import AdaVerif.Lemmas.Protocol
 /-
 C03 — Setters implement the Standard's API setters and fail atomically.
 
@@ -225,6 +226,58 @@ theorem url_set_port_end_to_end (L ty : Nat) (u : Url) (v : Bytes) (hinv : RecIn
           else (recOf u, false) :=
   setPortR_eq L ty u v (AdaVerif.Lemmas.AggL.credOk_of_recInv u hinv) hty.file
 
+/-! ### the protocol setter of both types, scan included
+
+`Model/Protocol.lean` transcribes `set_protocol` of both types from its first line: tab/newline removal, the
+alphabetic first byte, the appended ':', `find_if_not(is_alnum_plus)`, then `url::parse_scheme<true>` /
+`url_aggregator::parse_scheme_with_colon<true>` with their fast path (perfect-hash hit on the text as given) and slow
+path (lower-case copy, `is_special`, `set_scheme`), default-port removal through the new `type`, the limit check.
+`scanProtocol` is the shared scan; `Lemmas.Proto.scan_spec` shows the Standard's setter is "scan, then scheme state
+with state override on the lower-cased name"; `coreOk` says none of the three refusals applies. -/
+
+theorem scan_is_the_standards (u : Url) (v : Bytes) :
+    setProtocol u v = match AdaVerif.Model.scanProtocol v with
+      | .name n => protocolCore u (n.map toLowerByte)
+      | _ => u := AdaVerif.Lemmas.Proto.scan_spec u v
+
+private theorem scheme_facts (u : Url) (hinv : RecInv u = true) :
+    u.scheme ≠ [] ∧ (u.scheme = bFile → u.host.isSome = true) := by
+  have hinv' := hinv
+  simp only [RecInv, Bool.and_eq_true, Bool.or_eq_true, Bool.not_eq_true'] at hinv'
+  obtain ⟨⟨⟨⟨⟨hs, _⟩, hspec⟩, _⟩, _⟩, _⟩ := hinv'
+  refine ⟨?_, ?_⟩
+  · intro h; rw [h] at hs; simp [schemeOk] at hs
+  · intro hf
+    rcases hspec with h | h
+    · have : u.isSpecial = true := by simp [Url.isSpecial, hf, isSpecialScheme]
+      rw [this] at h; cases h
+    · exact h.1.1.1
+
+open AdaVerif.Model.Agg AdaVerif.Lemmas.AggL AdaVerif.Lemmas.Proto in
+/-- **`url_aggregator::set_protocol`, end to end** (state and return value) -/
+theorem aggregator_set_protocol_full (L : Nat) (u : Url) (v : Bytes) (hinv : RecInv u = true) :
+    setProtocolM L u.isSpecial (u.scheme == bFile) (layout (ofUrl u)) v = match AdaVerif.Model.scanProtocol v with
+      | .empty => (layout (ofUrl u), true)
+      | .reject => (layout (ofUrl u), false)
+      | .name n =>
+        if coreOk u (n.map toLowerByte) then
+          (if (layout (ofUrl (setProtocol u v))).buf.length ≤ L then (layout (ofUrl (setProtocol u v)), true)
+           else (layout (ofUrl u), false))
+        else (layout (ofUrl u), false) :=
+  setProtocolM_eq L u v (credOk_of_recInv u hinv) (scheme_facts u hinv).1 (scheme_facts u hinv).2
+
+open AdaVerif.Model.UrlRec AdaVerif.Lemmas.UR AdaVerif.Lemmas.Proto in
+/-- **`url::set_protocol`, end to end** (state and return value) -/
+theorem url_set_protocol_full (L ty : Nat) (u : Url) (v : Bytes) (hinv : RecInv u = true) (hty : (ty == 6) = (u.scheme == bFile)) :
+    setProtocolR L ty (recOf u) v = match AdaVerif.Model.scanProtocol v with
+      | .empty => (recOf u, true)
+      | .reject => (recOf u, false)
+      | .name n =>
+        if coreOk u (n.map toLowerByte) then
+          (if getHrefSize (recOf (setProtocol u v)) ≤ L then (recOf (setProtocol u v), true) else (recOf u, false))
+        else (recOf u, false) :=
+  setProtocolR_eq L ty u v (AdaVerif.Lemmas.AggL.credOk_of_recInv u hinv) hty
+
 /-! ### non-vacuity -/
 def noIdna : Idna := ⟨fun _ => none⟩
 example : (setPort { scheme := bHttps, host := some (.domain (ofStr "h")), path := [[]] } (ofStr "8080")).port = some 8080 := by
@@ -235,6 +288,8 @@ example : (AdaVerif.Model.UrlRec.setPathnameR 100 2 (AdaVerif.Lemmas.UR.recOf { 
     (ofStr "/a/../b")).1.path = ofStr "/b" := by decide +kernel
 example : (AdaVerif.Model.Agg.setPathnameM 100 1 false (AdaVerif.Model.Agg.layout (AdaVerif.Lemmas.AggL.ofUrl { scheme := ofStr "foo", path := [ofStr "a"] }))
     (ofStr "//x")).1.buf = ofStr "foo:/.//x" := by decide +kernel
+example : (AdaVerif.Model.UrlRec.setProtocolR 100 2 (AdaVerif.Lemmas.UR.recOf { scheme := bHttps, host := some (.domain (ofStr "h")), port := some 80, path := [[]] })
+    (ofStr "H\tTTP:x")) = (AdaVerif.Lemmas.UR.recOf { scheme := bHttp, host := some (.domain (ofStr "h")), path := [[]] }, true) := by decide +kernel
 example : (guarded List.length 3 (fun (s : List Nat) => some (0 :: s)) [1, 2, 3]) = ([1, 2, 3], false) := by decide
 
 end AdaVerif.Props.C03
